@@ -52,6 +52,11 @@ type Sim struct {
 	SplitProb float64       // probability a segment is delivered in two pieces
 	Capped    bool
 	lastTid   int
+
+	// OnStep, if set, is called at the end of every Step (after the delivery or
+	// the clock advance). The system is not necessarily quiescent at that point:
+	// call synctest.Wait() first if ground truth is read. It must not call Step.
+	OnStep func()
 }
 
 func New(c *core.Ctx) *Sim {
@@ -125,6 +130,9 @@ func (s *Sim) Step() {
 	synctest.Wait()
 	s.collect()
 	simclock.Set(time.Now())
+	if s.OnStep != nil {
+		defer s.OnStep()
+	}
 	if s.Net.Trace != nil {
 		if tid := syscall.Gettid(); tid != s.lastTid {
 			s.Net.Trace("driver now on tid +%d", tid-os.Getpid())
